@@ -1958,7 +1958,9 @@ class Exec:
             p, n = args
             if isinstance(p, ArrRef):
                 p = ElemPtr(p.arr, bv(0))
-            if p.cast and 'GenericArray<' in p.cast:
+            if isinstance(p, BlockPtr):      # the start of a heap block viewed as a pointer to its first element
+                p = ElemPtr(p.block.arr, bv(0))
+            if getattr(p, 'cast', None) and 'GenericArray<' in p.cast:
                 # slice of chunks: n chunks of N elements each starting at element p.idx
                 s.require(st, z3.And(MULOK(n, s.N), ADDOK(p.idx, n * s.N),
                                      ULE(p.idx + n * s.N, p.arr.len)), 'from_raw_parts: chunk slice extends beyond the source', where)
@@ -2127,6 +2129,8 @@ class Exec:
             return outs
         if re.search(r'::(add|offset)$', c) and ('*const' in c or '*mut' in c or 'ptr::' in c):
             p, k = args
+            if isinstance(p, BlockPtr) and re.search(r'<impl \*(const|mut) (T|MaybeUninit<T>)>::(add|offset)$', c):
+                p = ElemPtr(p.block.arr, bv(0))      # the block's start as a pointer to its first element (`block.cast::<T>()`)
             return R(ElemPtr(p.arr, p.idx + k, cast=p.cast))
         if re.search(r'<impl \*(const|mut) \[T\]>::(len|is_empty)$', c):
             a = args[0].ptr if isinstance(args[0], BoxVal) else args[0]
